@@ -27,6 +27,7 @@ PROPERTY_MODULES = {
     'C20': ['contracts.c20_scaling'],
     'C22': ['contracts.c22_conviol'],
     'C27': ['contracts.c27_options'],
+    'C13': ['contracts.c13_checks'],
 }
 
 # modules whose contracts may be used as callee contracts by any property
@@ -55,6 +56,7 @@ PROPERTY_ASSUMPTIONS = {
             'assumed: _iter_get_norm returns NaN or a value >= 0; _single_iteration and _run_apply neither raise nor modify solver control state'],
 }
 GAPS = {
+    'C13': ['Subjac.set_col family: bounded exhaustive tier only (not proved)', 'directional derivative checks (directional_fd_fwd / directional_fwd_rev branches)', '_MagnitudeData bookkeeping values', 'deriv_display text rendering', 'which arrays check_partials/check_totals pass in as J_fwd/J_rev/J_fd'],
     'C27': ['types=list (element-wise values check)', 'set_function preprocessing', 'declare() default validation and argument checks', 'update()/undeclare()/set()', 'deprecation warning text'],
     'C22': ['Driver._compute_con_viol (linear-first concatenation, exception fallback)', 'OptimizerVector.update_from_model (assumed to deliver model values)', 'multi-constraint vectors: one constraint slice [a,b) of a larger vector is verified, other slices are covered by the frame only'],
     'C20': ['unit part of total_scaler/total_adder (System._setup_driver_units, add_design_var/add_response normalisation)', '_TotalJacInfo._apply_unit_scaling/_identify_unit_active_vars', 'Autoscaler._compute_scaled_bounds slice layout loop', 'OptimizerVector.update_from_model / create_from_model', 'Driver._get_voi_val / _set_design_var unit branches'],
@@ -63,3 +65,43 @@ GAPS = {
     'C10': ['composition with NewtonSolver._single_iteration (that the line search is called with u += alpha*du just applied) is covered only for BoundsEnforceLS._solve / ArmijoGoldsteinLS._iter_initialize call protocol',
             'floating-point: a result can lie one ulp outside a bound (claim is over reals)'],
 }
+
+
+# ---------------------------------------------------------------------------------------------
+# extra tiers (bounded stand-ins, lemma back ends).  Each returns a dict merged into coverage.
+def _run_bounded(script, args, timeout=3000):
+    import subprocess, os, json
+    here = os.path.dirname(os.path.dirname(os.path.abspath(__file__)))
+    env = dict(os.environ)
+    env['PYTHONPATH'] = here + os.pathsep + os.environ.get('PYVC_REPO', '/repo')
+    env['OPENMDAO_REPORTS'] = '0'
+    env['PYTHONWARNINGS'] = 'ignore'
+    p = subprocess.run([os.environ.get('PYVC_NATIVE_PY', '/venv/bin/python'), os.path.join(here, 'bounded', script)] + [str(a) for a in args],
+                       capture_output=True, text=True, timeout=timeout, env=env, cwd='/tmp')
+    if p.returncode != 0:
+        return {'error': p.stderr[-1500:]}
+    try:
+        return json.loads(p.stdout.strip().splitlines()[-1])
+    except Exception as e:
+        return {'error': 'unparsable output: %s' % p.stdout[-500:]}
+
+
+def _c13_extra(tier, seed, native_run):
+    shape = (2, 2) if tier == 'quick' else (2, 3)
+    r = _run_bounded('c13_sparsity_audit.py', shape)
+    out = {'violations': [], 'errors': []}
+    if 'error' in r:
+        out['errors'].append('bounded sparsity audit could not run: ' + r['error'])
+        return out
+    out['bounded_sparsity_audit'] = {
+        'note': 'BOUNDED stand-in (not counted in obligations): Subjac.set_col family through real check_partials',
+        'bound': 'all declared patterns x all true-dependency patterns of a %dx%d linear map, formats rows/cols, coo, csr, csc, diagonal' % shape,
+        'evaluations': r['evaluations'], 'distinct_nontrivial': r['distinct_nontrivial'], 'exhaustive': True,
+        'failures': r['n_failures'], 'samples': r['samples']}
+    for f in r['failures'][:3]:
+        out['violations'].append(dict(f, what='sparsity audit: reported uncovered set differs from (true nonzeros - declared pattern)',
+                                      witness_id='c13-audit-%s-%s-%s' % (f['format'], f['declared'], f['true_nonzeros'])))
+    return out
+
+
+EXTRA_TIERS['C13'] = _c13_extra
